@@ -70,21 +70,36 @@ Fixpoint fire_always (ls : list node) (d : data) (ds : list draw) : option state
   | _ :: r => None
   end.
 
+(* children in listed order, each called WITHOUT force *)
+Definition seq_with (rk : node -> bool -> data -> list draw -> option state)
+  : list node -> data -> list draw -> option state :=
+  fix go (l : list node) (d : data) (ds : list draw) : option state :=
+    match l with
+    | [] => Some (d, [], ds)
+    | k :: tl => then_ (rk k false d ds) (go tl)
+    end.
+
+(* child number i, called with force_apply=True *)
+Definition pick_with (rk : node -> bool -> data -> list draw -> option state)
+  : list node -> nat -> data -> list draw -> option state :=
+  fix sel (l : list node) (i : nat) (d : data) (ds : list draw) : option state :=
+    match l, i with
+    | k :: _, O => rk k true d ds
+    | _ :: tl, S j => sel tl j d ds
+    | [], _ => None
+    end.
+
+(* the children numbered idx, in that order, each forced *)
+Definition picks_with (rk : node -> bool -> data -> list draw -> option state) (kids : list node)
+  : list nat -> data -> list draw -> option state :=
+  fix go (idx : list nat) (d : data) (ds : list draw) : option state :=
+    match idx with
+    | [] => Some (d, [], ds)
+    | i :: tl => then_ (pick_with rk kids i d ds) (go tl)
+    end.
+
 Fixpoint run (t : node) (force : bool) (d : data) (ds : list draw) {struct t} : option state :=
-  let seq := fun (kids : list node) =>
-    (fix go (l : list node) (d : data) (ds : list draw) : option state :=
-       match l with
-       | [] => Some (d, [], ds)
-       | k :: tl => then_ (run k false d ds) (go tl)
-       end) kids in
-  (* call child number i with force_apply=True *)
-  let pick := fun (kids : list node) (i : nat) (d : data) (ds : list draw) =>
-    (fix sel (l : list node) (i : nat) : option state :=
-       match l, i with
-       | k :: _, O => run k true d ds
-       | _ :: tl, S j => sel tl j
-       | [], _ => None
-       end) kids i in
+  let rk := fun k f d ds => run k f d ds in
   match t with
   | Leaf id p always =>
       (* random.random() is the left operand of `or`: it is always read *)
@@ -96,24 +111,29 @@ Fixpoint run (t : node) (force : bool) (d : data) (ds : list draw) {struct t} : 
   | Comp p kids =>
       (* need_to_run = force_apply or random.random() < p  (no draw when forced);
          children are called WITHOUT force; a skipped Compose applies get_always_apply *)
-      if force then seq kids d ds
+      if force then seq_with rk kids d ds
       else match ds with
            | DU u :: ds' =>
-               if Qltb u p then seq kids d ds' else fire_always (always_of_list kids) d ds'
+               if Qltb u p then seq_with rk kids d ds' else fire_always (always_of_list kids) d ds'
            | _ => None
            end
   | OneOfN p kids =>
       match kids with
       | [] => Some (d, [], ds)          (* `self.transforms_ps and ...` short-circuits: nothing is read *)
       | _ =>
-          let choose := fun ds0 =>
-            match ds0 with
-            | DC [i] :: ds1 => pick kids i d ds1
+          if force then
+            match ds with
+            | DC [i] :: ds1 => pick_with rk kids i d ds1
             | _ => None
-            end in
-          if force then choose ds
+            end
           else match ds with
-               | DU u :: ds' => if Qltb u p then choose ds' else Some (d, [], ds')
+               | DU u :: ds' =>
+                   if Qltb u p then
+                     match ds' with
+                     | DC [i] :: ds1 => pick_with rk kids i d ds1
+                     | _ => None
+                     end
+                   else Some (d, [], ds')
                | _ => None
                end
       end
@@ -121,21 +141,19 @@ Fixpoint run (t : node) (force : bool) (d : data) (ds : list draw) {struct t} : 
       match kids with
       | [] => Some (d, [], ds)
       | _ =>
-          let choose := fun ds0 =>
-            match ds0 with
-            | DC idx :: ds1 =>
-                if Nat.eqb (length idx) n
-                then (fix go (idx : list nat) (d : data) (ds : list draw) : option state :=
-                        match idx with
-                        | [] => Some (d, [], ds)
-                        | i :: tl => then_ (pick kids i d ds) (go tl)
-                        end) idx d ds1
-                else None
+          if force then
+            match ds with
+            | DC idx :: ds1 => if Nat.eqb (length idx) n then picks_with rk kids idx d ds1 else None
             | _ => None
-            end in
-          if force then choose ds
+            end
           else match ds with
-               | DU u :: ds' => if Qltb u p then choose ds' else Some (d, [], ds')
+               | DU u :: ds' =>
+                   if Qltb u p then
+                     match ds' with
+                     | DC idx :: ds1 => if Nat.eqb (length idx) n then picks_with rk kids idx d ds1 else None
+                     | _ => None
+                     end
+                   else Some (d, [], ds')
                | _ => None
                end
       end
@@ -143,7 +161,7 @@ Fixpoint run (t : node) (force : bool) (d : data) (ds : list draw) {struct t} : 
       (* ignores its own force_apply; first child if random.random() < p else the LAST child *)
       match ds with
       | DU u :: ds' =>
-          if Qltb u p then pick kids 0%nat d ds' else pick kids (pred (length kids)) d ds'
+          if Qltb u p then pick_with rk kids 0%nat d ds' else pick_with rk kids (pred (length kids)) d ds'
       | _ => None
       end
   | SeqN _ kids =>
@@ -152,7 +170,7 @@ Fixpoint run (t : node) (force : bool) (d : data) (ds : list draw) {struct t} : 
          callee strips it from the dict it returns); the operator's own p is never read *)
       match kids with
       | [] => Some (d, [], ds)
-      | k :: tl => then_ (run k force d ds) (seq tl)
+      | k :: tl => then_ (run k force d ds) (seq_with rk tl)
       end
   end.
 
